@@ -28,6 +28,7 @@ type outcome struct {
 	err    string // child crashed / was killed / produced no result
 	stderr string
 	race   bool
+	start  time.Time
 	dur    time.Duration
 }
 
@@ -231,24 +232,40 @@ func main() {
 	bin, _ := os.Executable()
 	outs := runAll(bin, scs, labels, false)
 
-	// ---- thorough: the storms again under the race detector ----
-	raceNote := "not run (quick tier)"
-	if o.Tier == "thorough" && !*norace {
-		rb, err := buildRace(o.Out)
+	// ---- race detector: thorough re-runs the storms under a -race build of the child; quick runs a reduced
+	// fragment (storms in which all four globals - tracer provider, meter provider, propagator, error handler -
+	// are installed while their placeholders are in use).  A race build that fails or times out, and a -race
+	// child that is killed or hits its watchdog, are "not run / inconclusive" in the evidence, never a violation.
+	raceNote := "not run (-norace)"
+	if !*norace {
+		buildLimit := 20 * time.Minute
+		if o.Tier != "thorough" {
+			buildLimit = 4 * time.Minute
+		}
+		t0 := time.Now()
+		rb, err := buildRace(o.Out, buildLimit)
 		if err != nil {
-			raceNote = "race build failed: " + err.Error()
+			raceNote = "not run (inconclusive): race build failed or timed out: " + err.Error()
 		} else {
 			var rs []Scenario
 			var rl []string
-			for i, sc := range scs {
-				if sc.Kind == "storm" && len(rs) < 400 {
-					rs = append(rs, sc)
-					rl = append(rl, labels[i]+"-race")
+			if o.Tier == "thorough" {
+				for i, sc := range scs {
+					if sc.Kind == "storm" && len(rs) < 400 {
+						rs = append(rs, sc)
+						rl = append(rl, labels[i]+"-race")
+					}
 				}
+			}
+			rr := r.Fork()
+			for i := 0; i < o.Count(14, 60); i++ {
+				rs = append(rs, Scenario{Kind: "storm", Storm: raceStorm(rr.Fork(), i)})
+				rl = append(rl, "storm-race")
 			}
 			ro := runAll(rb, rs, rl, true)
 			outs = append(outs, ro...)
-			raceNote = fmt.Sprintf("%d storms re-run under a -race build of the child", len(rs))
+			raceNote = fmt.Sprintf("%d storms run under a -race build of the child (build %.0fs, run %.0fs)", len(rs),
+				ro0(t0, ro), time.Since(t0).Seconds()-ro0(t0, ro))
 		}
 	}
 	w.Extra["race"] = raceNote
@@ -278,14 +295,25 @@ func runAll(bin string, scs []Scenario, labels []string, race bool) []outcome {
 			}
 			t0 := time.Now()
 			res, errs, stderr := runChild(bin, scs[i], limit)
-			outs[i] = outcome{sc: scs[i], label: labels[i], res: res, err: errs, stderr: stderr, race: race, dur: time.Since(t0)}
+			outs[i] = outcome{sc: scs[i], label: labels[i], res: res, err: errs, stderr: stderr, race: race, dur: time.Since(t0), start: t0}
 		}(i)
 	}
 	wg.Wait()
 	return outs
 }
 
-func buildRace(out string) (string, error) {
+// ro0: seconds from t0 until the first race child started (= the build time).
+func ro0(t0 time.Time, ro []outcome) float64 {
+	first := time.Now()
+	for _, o := range ro {
+		if st := o.start; !st.IsZero() && st.Before(first) {
+			first = st
+		}
+	}
+	return first.Sub(t0).Seconds()
+}
+
+func buildRace(out string, limit time.Duration) (string, error) {
 	root := os.Getenv("VERIF_ROOT")
 	if root == "" {
 		return "", fmt.Errorf("VERIF_ROOT not set")
@@ -296,7 +324,7 @@ func buildRace(out string) (string, error) {
 		args = append(args, "-modfile="+filepath.Join(out, "alt.mod"))
 	}
 	args = append(args, "./cmd/C16")
-	ctx, cancel := context.WithTimeout(context.Background(), 20*time.Minute)
+	ctx, cancel := context.WithTimeout(context.Background(), limit)
 	defer cancel()
 	cmd := exec.CommandContext(ctx, "go", args...)
 	cmd.Dir = filepath.Join(root, "harness")
@@ -330,6 +358,11 @@ func judge(w *vgen.Writer, oc outcome) {
 	if oc.race && strings.Contains(oc.stderr, "DATA RACE") {
 		desc["stderr"] = oc.stderr
 		w.Violation("data race reported by the race detector in a storm over the global providers", desc)
+		return
+	}
+	if oc.race && (oc.res == nil || oc.res.Stuck) {
+		// slow under the race detector on a busy machine: the same scenario shapes run without -race decide this
+		w.Tally("race:inconclusive (child killed or watchdog under -race)")
 		return
 	}
 	if oc.res == nil {
